@@ -268,3 +268,58 @@ func checkProbes(txMeta []string, want map[string]string) string {
 	}
 	return ""
 }
+
+// withOriginsAsPlain replaces balance()/overdraft() variables by plain variables holding the value
+// the ledger dictates. An origin only reads: learning a balance early must have no effect other
+// than the variable's value, so the outcome must not change (a request that corrupts, ages or
+// shadows what later statements read shows here under every store behaviour alike).
+func withOriginsAsPlain(c Case) (Case, int) {
+	r := newResolver(c)
+	seen := map[string]bool{}
+	for _, v := range c.Prog.Vars {
+		if seen[v.Name] {
+			return c, 0 // duplicate declarations: which one counts is not this oracle's business
+		}
+		seen[v.Name] = true
+	}
+	flag := false
+	for _, f := range c.In.Flags {
+		flag = flag || f == gen.FlagOverdraft
+	}
+	n := c
+	n.Prog = c.Prog.Clone()
+	n.In = c.In.Clone()
+	k := 0
+	for i, v := range c.Prog.Vars {
+		if (v.Fn != "balance" && v.Fn != "overdraft") || len(v.Args) != 2 || v.Type != "monetary" {
+			continue
+		}
+		if v.Fn == "overdraft" && !flag {
+			continue // fails with the experimental-feature error: left as it is
+		}
+		a, ok1 := r.str(&v.Args[0], 0)
+		as, ok2 := r.str(&v.Args[1], 0)
+		if !ok1 || !ok2 || !assetLexable(as) || (a != "world" && !accountLexable(a)) {
+			continue
+		}
+		t := r.truth(pair{a, as})
+		if a == "world" {
+			t = big.NewInt(0) // never requested: reads as nothing
+		}
+		val := new(big.Int).Set(t)
+		if v.Fn == "balance" && t.Sign() < 0 {
+			continue // fails with the negative-balance error: left as it is
+		}
+		if v.Fn == "overdraft" {
+			if t.Sign() > 0 {
+				val = big.NewInt(0)
+			} else {
+				val.Neg(t)
+			}
+		}
+		n.Prog.Vars[i] = gen.VarDecl{Type: "monetary", Name: v.Name}
+		n.In.Vars[v.Name] = as + " " + val.String()
+		k++
+	}
+	return n, k
+}
